@@ -1,6 +1,6 @@
 (* caobab spike, part 1: model of precompute_problem + run_bab_node (no room stage), spec HardOK *)
 From Coq Require Import List ZArith Lia Bool Arith Permutation.
-Require Import HP1.
+Require Import HP1 Consts.
 Import ListNotations.
 Open Scope nat_scope.
 
@@ -18,7 +18,7 @@ Definition memb (x : nat) (l : list nat) : bool := existsb (Nat.eqb x) l.
 Definition sumN (l : list nat) : nat := fold_right Nat.add 0 l.
 Definition countB (l : list bool) : nat := length (filter (fun b => b) l).
 Definition getO (l : assignment) (i : nat) : option nat := nth i l None.
-Definition WEIGHT_OFFSET : Z := 50000.
+Notation WEIGHT_OFFSET := Consts.WEIGHT_OFFSET.   (* regenerated from caobab.rs on every run *)
 
 Section Cao.
 Variables (courses : list course) (parts : list participant).
